@@ -226,6 +226,76 @@ def stop_on_closed_peer(hook_time, stop_after, inbound):
     return obs
 
 
+def stop_slow_unbind_hook(variant, hook_time=1.5):
+    """stop() on a healthy bound session; the application's sending hook for the unbind takes `hook_time` seconds; meanwhile something ends
+    one of the session tasks (a PDU from the SMSC wakes the keeper, which sees the shutdown flag; or the SMSC closes the connection), so
+    start() tears the session down and returns while stop() is still inside the hook. stop() must return all the same."""
+    import struct
+    from harness import smppref
+    from aiosmpplib.retrytimer import SimpleExponentialBackoff
+    loop = vsess.VLoop()
+    asyncio.set_event_loop(loop)
+    smsc = vsess.FakeSMSC(loop)
+    undo = vsess.install(loop, smsc)
+    obs = {'unbind_written': False}
+    try:
+        esme, hook = vsess.quiet_esme(enquire_link_interval=0.5 if variant == 'keeper_wakes' else 30.0, socket_timeout=10.0,
+                                      retry_timer=SimpleExponentialBackoff(200, 2))
+
+        def sgate(m, p):
+            if struct.unpack('>I', bytes(p)[4:8])[0] == 6:
+                return asyncio.sleep(hook_time)
+            return None
+        hook.sending_gate = sgate
+
+        def on_pdu(conn, pdu):
+            for p in vsess.split_pdus(pdu)[0]:
+                cmd, seq = struct.unpack('>I', p[4:8])[0], struct.unpack('>I', p[12:16])[0]
+                if cmd in (1, 2, 9):
+                    conn.send(vsess.bind_resp_for(p))
+                    if variant == 'smsc_traffic':
+                        for k in range(1, 12):
+                            conn.send(smppref.header(0x15, 0, 9000 + k), delay=0.3 * k)
+                    elif variant == 'smsc_closes':
+                        conn.close_peer(delay=1.5)
+                elif cmd == 0x15:
+                    conn.send(smppref.header(0x80000015, 0, seq), delay=0.01)
+                elif cmd == 6:
+                    obs['unbind_written'] = True
+                    conn.send(smppref.header(0x80000006, 0, seq), delay=0.01)
+                    conn.eof(delay=0.05)
+        smsc.on_pdu = on_pdu
+
+        async def main():
+            t = asyncio.create_task(esme.start())
+            await asyncio.sleep(1.0)
+            st = asyncio.create_task(esme.stop())
+            await asyncio.sleep(120.0)
+            obs['stop_returned'] = st.done()
+            obs['start_done'] = t.done()
+            obs['start_exc'] = repr(t.exception()) if t.done() and not t.cancelled() and t.exception() is not None else None
+            obs['pending'] = sorted({tk.get_coro().__qualname__ for tk in asyncio.all_tasks(loop) if not tk.done() and tk is not asyncio.current_task()})
+            for x in (st, t):
+                if not x.done():
+                    x.cancel()
+            await asyncio.gather(st, t, return_exceptions=True)
+        loop.run_until_complete(main())
+    finally:
+        undo()
+        vsess.finish(loop)
+    return obs
+
+
+def oracle_stop_slow_unbind_hook(obs):
+    if obs['start_exc']:
+        return f'start() ended with {obs["start_exc"]}'
+    if not obs['stop_returned']:
+        return f'stop() had not returned 120 s later (tasks still pending: {obs["pending"]}); unbind written: {obs["unbind_written"]}'
+    if not obs['start_done']:
+        return 'start() was still running 120 s after stop()'
+    return None
+
+
 def oracle_stop_on_closed_peer(obs):
     if obs['start_exc']:
         return f'start() ended with {obs["start_exc"]}'
@@ -399,6 +469,16 @@ def run(ctx):
             if msg:
                 ctx.violation(f'the SMSC sends {inbound} and closes its socket; the received hook takes {hook_time} s; stop() is called {stop_after} s after '
                               f'the close: {msg}', {'function': 'stop_on_closed_peer', 'inbound': inbound, 'hook_time': hook_time, 'stop_after': stop_after})
+    # ---- stop() whose unbind is held up in the application's sending hook while the session ends underneath it
+    for variant in ('smsc_traffic', 'smsc_closes', 'keeper_wakes', 'quiet'):
+        for hook_time in (1.5, 0.05) + ((4.0,) if ctx.thorough else ()):
+            obs = stop_slow_unbind_hook(variant, hook_time)
+            ctx.traces += 1
+            ctx.case(('stop_slow_unbind_hook', variant, hook_time), nontrivial=True)
+            msg = oracle_stop_slow_unbind_hook(obs)
+            if msg:
+                ctx.violation(f'stop() on a bound session, sending hook of the unbind takes {hook_time} s, meanwhile: {variant}: {msg}',
+                              {'function': 'stop_slow_unbind_hook', 'variant': variant, 'hook_time': hook_time})
     if proved or not getattr(ctx, 'build_failing', None):
         bad, errs = core.run_cases('C07', 'run', IMPORTS, 'fun p : Z * Z * list (cycle * bool * bool) => ser_run (fst (fst p)) (snd (fst p)) (snd p)', cases, shard=100)
         for fnm, out in errs:
@@ -420,6 +500,12 @@ def replay(ctx, path):
         obs = play(scripts, rp['stop_at'], 400.0, rp['bind_mode'], rp['min_delay_ms'], rp['max_increases'])
         print('replay:', {k: obs.get(k) for k in ('attempts', 'waits', 'done', 'state', 'start_returned_after', 'conns')})
         print('oracle:', oracle(obs, scripts, rp['bind_mode'], rp['min_delay_ms'], rp['max_increases'], 30.0, 10.0))
+    elif rp.get('function') == 'stop_slow_unbind_hook':
+        obs = stop_slow_unbind_hook(rp['variant'], rp['hook_time'])
+        msg = oracle_stop_slow_unbind_hook(obs)
+        print('replay:', obs)
+        print('replay:', msg or 'property holds on this input')
+        return 1 if msg else 0
     elif rp.get('function') == 'stop_on_closed_peer':
         obs = stop_on_closed_peer(rp['hook_time'], rp['stop_after'], rp['inbound'])
         msg = oracle_stop_on_closed_peer(obs)
